@@ -71,7 +71,7 @@ def reduced_alphabet():
 
 def ev_group(ev):
     if ev[0] in ("read", "hasattr", "getattr3"):
-        return H.GROUP_OF[ev[1]]
+        return H.GROUP_OF.get(ev[1])
     if ev[0] == "init":
         return INIT_GROUP[ev[1]]
     if ev[0] == "calc":
